@@ -1,6 +1,6 @@
 import Driver.Loop
 import Driver.Codec
-import PyGqlModel.Introspect
+import PyGqlModel.Spec.Introspect
 open PyGql PyGql.Introspect
 
 namespace DriverC15
@@ -45,6 +45,10 @@ def handle (j : J) : J :=
       match iterateFields s (j.boolD "disable") p sel with
       | none => .obj [("r", .str "unbound")]
       | some l => .obj [("r", .arr (l.map fun (k, d) => .arr [.str k, fdToJson (.ok (some d))]))]
+  | "lossless" =>
+    .obj [("decoded", Driver.schemaToJson (Spec.schemaOfIntrospection (introspect s true))),
+          ("norm", Driver.schemaToJson (Spec.norm s)), ("depthOk", .bool (Spec.DepthOk s))]
+  | "decodeReal" => .obj [("decoded", Driver.schemaToJson (Spec.schemaOfIntrospection (j.getD "data")))]
   | "format" =>
     .obj [("text", jChars (Generated.Introspection.formatDefaultValue s (j.boolD "has_default") (j.getD "value")
             (Driver.tyOfJson (j.getD "type"))))]
